@@ -373,6 +373,7 @@ package raft
 //@   ensures old(in(id, r.votes)) ==> (forall k uint64 :: (in(k, r.votes) <==> old(in(k, r.votes))) && r.votes[k] == old(r.votes[k]))
 //@   ensures !old(in(id, r.votes)) ==> in(id, r.votes) && r.votes[id] == v && (forall k uint64 :: k != id ==> (in(k, r.votes) <==> old(in(k, r.votes))) && r.votes[k] == old(r.votes[k]))
 //@   ensures granted == countTrue(r.votes) && 0 <= granted && granted <= len(r.votes)
+//@   ensures len(r.votes) == old(len(r.votes)) + ite(old(in(id, r.votes)), 0, 1)
 //@   ensures r.votes == old(r.votes)
 //@   modifies r.votes
 //@ loop 1
@@ -422,7 +423,7 @@ package raft
 //@ func (r *raft) becomeCandidate()
 //@   requires rOK(r) && lprsOK(r) && r.readOnly != nil && r.Term < 18446744073709551615
 //@   ensures old(r.state) != StateLeader
-//@   ensures r.Term == old(r.Term) + 1 && r.Vote == r.id && r.state == StateCandidate && r.id == old(r.id)
+//@   ensures r.Term == old(r.Term) + 1 && r.Vote == r.id && r.state == StateCandidate && r.id == old(r.id) && r.step != nil
 //@   ensures r.votes != nil && len(r.votes) == 0 && countTrue(r.votes) == 0
 //@   ensures r.raftLog == old(r.raftLog) && lOK(r.raftLog) && r.prs == old(r.prs) && r.learnerPrs == old(r.learnerPrs) && prsOK(r) && lprsOK(r) && r.readOnly != nil
 //@   modifies r.step, r.tick, r.state, r.Term, r.Vote, r.lead, r.electionElapsed, r.heartbeatElapsed, r.randomizedElectionTimeout, r.leadTransferee, r.votes, r.pendingConf, r.readOnly, alloftype(Progress)
@@ -431,7 +432,7 @@ package raft
 //@ func (r *raft) becomePreCandidate()
 //@   requires r != nil
 //@   ensures old(r.state) != StateLeader
-//@   ensures r.Term == old(r.Term) && r.Vote == old(r.Vote) && r.state == StatePreCandidate && r.lead == None
+//@   ensures r.Term == old(r.Term) && r.Vote == old(r.Vote) && r.state == StatePreCandidate && r.lead == None && r.step != nil
 //@   ensures r.votes != nil && len(r.votes) == 0 && countTrue(r.votes) == 0
 //@   modifies r.step, r.tick, r.state, r.lead, r.votes
 
@@ -470,4 +471,41 @@ package raft
 //@   ensures forall k int :: old(len(r.msgs)) <= k && k < len(r.msgs) && r.msgs[k].Type == pb.MsgVoteResp && !r.msgs[k].Reject ==> r.Vote == r.msgs[k].To && r.msgs[k].Term == r.Term && r.msgs[k].To == m.From
 //@   ensures old(r.isLearner) && (m.Type == pb.MsgVote || m.Type == pb.MsgPreVote) ==> (r.Vote == old(r.Vote) || r.Vote == None) && (forall k int :: old(len(r.msgs)) <= k && k < len(r.msgs) ==> !(isVoteResp(r.msgs[k].Type) && !r.msgs[k].Reject))
 //@   ensures m.Term > old(r.Term) && (m.Type == pb.MsgVote || m.Type == pb.MsgPreVote) && !bytesEq(m.Context, "CampaignTransfer") && old(r.checkQuorum && r.lead != None && r.electionElapsed < r.electionTimeout) ==> r.Term == old(r.Term) && r.Vote == old(r.Vote) && len(r.msgs) == old(len(r.msgs))
+//@   modifies *
+
+// ---- winning an election: only with a majority of granted votes, only as a candidate of this term ----
+//@ func (r *raft) becomeLeader()
+//@   trusted progress bookkeeping and the empty-entry append are not verified; what matters for the election is stated
+//@   requires stepKeeps(r) && r.state != StateFollower
+//@   ensures stepKeeps(r) && r.Term == old(r.Term) && r.Vote == old(r.Vote) && r.state == StateLeader && r.lead == r.id && r.id == old(r.id) && r.isLearner == old(r.isLearner)
+//@   ensures len(r.msgs) == old(len(r.msgs)) && sameSlice(r.msgs, old(r.msgs)) && r.prs == old(r.prs) && len(r.prs) == old(len(r.prs))
+//@   ghostset ghost(leaderships, r) := old(ghost(leaderships, r)) + 1
+//@   modifies *
+//@ noeffect (*github.com/youzan/ZanRedisDB/raft.raft).handleAppendEntries (*github.com/youzan/ZanRedisDB/raft.raft).handleHeartbeat (*github.com/youzan/ZanRedisDB/raft.raft).handleSnapshot (*github.com/youzan/ZanRedisDB/raft.raft).bcastAppend
+
+// campaign: a pre-election keeps term and vote; a real election enters the next term and votes for itself.
+// It takes the leadership at once only when its own vote already is a majority (single voter).
+//@ func (r *raft) campaign(t CampaignType)
+//@   requires stepKeeps(r) && r.Term < 18446744073709551614 && r.state != StateLeader
+//@   callassert becomeLeader countTrue(r.votes) == len(r.prs) / 2 + 1 && r.state == StateCandidate && r.Vote == r.id
+//@   callassert campaign arg1 == campaignElection && countTrue(r.votes) == len(r.prs) / 2 + 1 && r.state == StatePreCandidate
+//@   ensures (r.Term == old(r.Term) && r.Vote == old(r.Vote) && r.state == StatePreCandidate && t == campaignPreElection) || (r.Term == old(r.Term) + 1 && r.Vote == r.id)
+//@   ensures r.state == StateLeader ==> len(r.prs) / 2 + 1 <= 1
+//@   ensures ghost(leaderships, r) != old(ghost(leaderships, r)) ==> r.state == StateLeader
+//@   ensures r.prs == old(r.prs) && len(r.prs) == old(len(r.prs))
+//@   ensures r.id == old(r.id) && r.isLearner == old(r.isLearner)
+//@   modifies *
+//@ loop 1
+//@   invariant ghost(leaderships, r) == old(ghost(leaderships, r)) && r.prs == old(r.prs) && len(r.prs) == old(len(r.prs))
+//@   invariant stepKeeps(r) && r.id == old(r.id) && r.isLearner == old(r.isLearner) && r.state != StateLeader && (voteMsg == pb.MsgPreVote || voteMsg == pb.MsgVote) && term != 0
+//@   invariant (t == campaignPreElection ==> r.Term == old(r.Term) && r.Vote == old(r.Vote) && r.state == StatePreCandidate) && (t != campaignPreElection ==> r.Term == old(r.Term) + 1 && r.Vote == r.id)
+
+// a candidate takes the leadership exactly when the granted votes recorded for this candidacy reach the majority
+// of the voters; a pre-candidate then starts the real election; a majority of rejections makes it a follower
+//@ func stepCandidate(r *raft, m pb.Message) bool
+//@   requires stepKeeps(r) && r.votes != nil && (r.state == StateCandidate || r.state == StatePreCandidate) && r.Term < 18446744073709551614 && (m.Type == pb.MsgApp || m.Type == pb.MsgHeartbeat || m.Type == pb.MsgSnap ==> m.Term >= r.Term)
+//@   callassert becomeLeader gr == countTrue(r.votes) && gr == len(r.prs) / 2 + 1 && r.state == StateCandidate && m.Type == pb.MsgVoteResp
+//@   callassert campaign gr == countTrue(r.votes) && gr == len(r.prs) / 2 + 1 && r.state == StatePreCandidate && m.Type == pb.MsgPreVoteResp && arg1 == campaignElection
+//@   ensures ghost(leaderships, r) != old(ghost(leaderships, r)) ==> (old(r.state) == StateCandidate && m.Type == pb.MsgVoteResp && r.Term == old(r.Term)) || (old(r.state) == StatePreCandidate && m.Type == pb.MsgPreVoteResp && old(len(r.prs)) / 2 + 1 <= 1)
+//@   ensures r.Term >= old(r.Term)
 //@   modifies *
